@@ -2,6 +2,7 @@ import MosnVerif.Lemmas.HealthFlags
 import MosnVerif.Lemmas.HealthRegistry
 import MosnVerif.Lemmas.HealthCheck
 import MosnVerif.Lemmas.HealthLoop
+import MosnVerif.Lemmas.HealthLifecycleRef
 /-!
 # C16 — host health state is never lost, and thresholds are exact (property theorems only)
 
@@ -11,6 +12,8 @@ Part A' (`HealthRegistry`): the allocation of that word — host objects created
 SAME word under every interleaving of the `healthStore` operations `GetHealthFlagPointer` performs (step program
 regenerated from health.go), so Part A applies across host objects.
 Part B (`HealthCheck`): the regenerated `HandleSuccess/HandleFailure` automaton against a run-length reference.
+Part C (`HealthLifecycle`): the life cycle — several clusters' session checkers sharing the word of an address, created and
+dropped by host-set updates / `Stop` (effects of `startCheck`/`stopCheck`/… regenerated from healthchecker.go).
 -/
 namespace MosnVerif.Props.C16
 open MosnVerif.Model
@@ -511,5 +514,121 @@ example : (HealthLoop.run genPolicy (Loop.init genPolicy) [.top, .issue, .timeou
 example : (HealthLoop.run genPolicy (Loop.init genPolicy) [.issue, .top, .answer true, .timeout]).log = [.success] := by decide
 
 end CheckerLoop
+
+section Lifecycle
+open MosnVerif.Model.HealthLifecycle MosnVerif.Model.HealthCheck MosnVerif.Gen.HealthLifecycle
+
+/-- **stop_preserves_health**: in EVERY state, a life-cycle operation — a cluster's host-set update
+(`SetHealthCheckerHostSet`: `startCheck` of the new addresses, `stopCheck` of the deleted ones), `Stop`
+(`StopHealthChecking`: `stopCheck` of every listed host), the replacement of a cluster — changes NO health word of any
+address and delivers no callback: starting or stopping a session checker never heals or fails a host.
+(Holds because the regenerated effect lists of `startCheck` / `stopCheck` contain no flag operation.) -/
+theorem stop_preserves_health (w : World) (op : HealthLifecycle.Op) (h : op.isLifecycle = true) :
+    (HealthLifecycle.step w op).1.words = w.words ∧ (HealthLifecycle.step w op).2 = none := by
+  refine ⟨step_lifecycle_words w op h, ?_⟩
+  cases op <;> first | rfl | simp [HealthLifecycle.Op.isLifecycle] at h
+
+/-- **healthy_only_by_successes**: for every configuration of clusters, all initial words and EVERY operation list
+(host-set updates, stops, cluster replacements, check results of any cluster's session checker for any address, other
+conditions' writers), whenever the next operation clears `FAILED_ACTIVE_HC` of an address `a`, that operation is a
+SUCCESSFUL check of a running session checker `c` of some cluster `k` for `a`, and it completes at least
+`healthy_threshold(k)` consecutive successes handled by THAT session checker since it was created (`c.rev` = its own
+history).  In particular no stop / start / host-set operation and no failure ever makes a host healthy. -/
+theorem healthy_only_by_successes (cfg : Cid → Nat × Nat) (words0 : Addr → Word) (ops : List HealthLifecycle.Op)
+    (op : HealthLifecycle.Op) (a : Addr)
+    (hb : ((runOps (World.init cfg words0) ops).words a).active = true)
+    (ha : ((HealthLifecycle.step (runOps (World.init cfg words0) ops) op).1.words a).active = false) :
+    ∃ k c, op = .result k a .success ∧ (runOps (World.init cfg words0) ops).chk k a = some c ∧ c.running = true ∧
+      ((runOps (World.init cfg words0) ops).thr k).2 ≤ trail Result.ok (.success :: c.rev) :=
+  cleared_only_by_success _ (good_runOps ops _ (good_init cfg words0)) op a hb ha
+
+/-- dually, `FAILED_ACTIVE_HC` is set only by a failed / timed-out check that completes at least `unhealthy_threshold`
+consecutive failures of the session checker it is handed to -/
+theorem unhealthy_only_by_failures (cfg : Cid → Nat × Nat) (words0 : Addr → Word) (ops : List HealthLifecycle.Op)
+    (op : HealthLifecycle.Op) (a : Addr)
+    (hb : ((runOps (World.init cfg words0) ops).words a).active = false)
+    (ha : ((HealthLifecycle.step (runOps (World.init cfg words0) ops) op).1.words a).active = true) :
+    ∃ k c r, op = .result k a r ∧ r.bad = true ∧ (runOps (World.init cfg words0) ops).chk k a = some c ∧ c.running = true ∧
+      ((runOps (World.init cfg words0) ops).thr k).1 ≤ trail Result.bad (r :: c.rev) :=
+  set_only_by_failure _ (good_runOps ops _ (good_init cfg words0)) op a hb ha
+
+/-- **lifecycle_threshold_exact**: when cluster `k` is the only cluster that ever lists address `a` (in the whole list
+`all`, of which `ops` is a prefix), then after ANY operations — including removing and re-adding the host, stopping the
+checker, replacing the cluster — a result handed to `k`'s session checker `c` for `a` flips the condition EXACTLY when it
+completes `unhealthy_threshold` consecutive failures while not failing / `healthy_threshold` consecutive successes while
+failing, counted over the session checker's own history `c.rev` since its creation; `changed` is reported exactly then. -/
+theorem lifecycle_threshold_exact (cfg : Cid → Nat × Nat) (words0 : Addr → Word) (all ops : List HealthLifecycle.Op)
+    (hsub : ∀ op ∈ ops, op ∈ all) (k : Cid) (a : Addr) (r : Result) (c : Checker)
+    (hso : soleOwner all k a = true) (hc : (runOps (World.init cfg words0) ops).chk k a = some c) :
+    let w := runOps (World.init cfg words0) ops
+    let before := (w.words a).active
+    let changed := (!before && r.bad && trail Result.bad (r :: c.rev) == (w.thr k).1) ||
+                   (before && r.ok && trail Result.ok (r :: c.rev) == (w.thr k).2)
+    (HealthLifecycle.step w (.result k a r)).2 = some ⟨changed, r.ok, if changed then !before else before⟩ ∧
+    ((HealthLifecycle.step w (.result k a r)).1.words a).active = (if changed then !before else before) :=
+  sole_result_exact all _ _ (sim_runOps all ops _ _ (sim_init all cfg words0) hsub) k a r c hso hc
+
+/-- the checkers of the model are those of the hand-written reference (which session checkers exist is a matter of the
+host sets alone), each with its own history -/
+theorem lifecycle_refines (cfg : Cid → Nat × Nat) (words0 : Addr → Word) (ops : List HealthLifecycle.Op) (k : Cid) (a : Addr) :
+    ((Ref.init cfg).run ops).live k a = ((runOps (World.init cfg words0) ops).chk k a).map (·.rev) :=
+  (sim_runOps ops ops _ _ (sim_init ops cfg words0) (fun _ h => h)).live k a
+
+/-- the model's observations always satisfy the property predicate the driver applies to the implementation -/
+theorem spec_holds_on_model_lc (n : Nat) (cfg : Cid → Nat × Nat) (words0 : Addr → Word) (ops : List HealthLifecycle.Op) :
+    holds n cfg words0 ops (trace (World.init cfg words0) ops) = true :=
+  holdsFrom_trace n ops ops _ _ (sim_init ops cfg words0) (fun _ h => h)
+
+/-- a `stopCheck` that also clears the condition ("do not leave a stale failure behind") -/
+def clearingStop : CheckProg := ⟨.present, [], [.stopSession, .delChecker, .flag (.clear .activeHC), .localHealthy (-1)], []⟩
+
+/-- **such a stopCheck violates the property**: two clusters (thresholds 1/2) share address 0; one failed check marks it
+unhealthy; cluster 1 drops the host.  With `clearingStop` the host is healthy again with ZERO successful checks, and the
+surviving checker — whose failure counter already sits at the threshold — never marks it unhealthy again however many
+checks fail; the predicate rejects what is seen at the stop. -/
+theorem clearing_stopCheck_heals_without_success :
+    let cfg : Cid → Nat × Nat := fun _ => (1, 2)
+    let w1 := runOps (World.init cfg (fun _ => ⟨false, false⟩)) [.setHosts 0 [0], .setHosts 1 [0], .result 0 0 .failure]
+    let w2 := runCheckProg clearingStop 1 0 w1
+    let w3 := runOps w2 [.result 0 0 .failure, .result 0 0 .timeout, .result 0 0 .failure]
+    (w1.words 0).active = true ∧ (w2.words 0).active = false ∧ (w3.words 0).active = false ∧
+    noFlag clearingStop = false ∧
+    holdsStep 1 [] ((Ref.init cfg).run [.setHosts 0 [0], .setHosts 1 [0], .result 0 0 .failure]) w1.words w2.words none
+      (.setHosts 1 []) = false ∧
+    -- the regenerated stopCheck leaves the host failing
+    ((stopCheck 1 0 w1).words 0).active = true := by
+  decide
+
+/-- why exactness is stated for an address that ONE cluster lists (`lifecycle_threshold_exact`): in the code as it is, two
+clusters' session checkers on one address write the same condition with their own counters and an `==` threshold test.
+Thresholds 1/1: cluster 0's check fails (host marked), cluster 1's check succeeds (host healed — by ITS threshold), then
+cluster 0's checks keep failing: its counter has passed the threshold (2, 3, … ≠ 1) and it never marks the host again
+until one of its checks succeeds.  `healthy_only_by_successes` / `unhealthy_only_by_failures` still hold (every
+transition is a threshold-completing result of the checker that made it).  Reproduced on the real clusters by the
+correspondence run (case `lc 1:1,1:1 0 h0=0,h1=0,r00f,r10s,r00f`); outside the property's statement, which speaks of
+one checker's result sequence. -/
+theorem shared_address_not_exact :
+    let w := runOps (World.init (fun _ => (1, 1)) (fun _ => ⟨false, false⟩))
+      [.setHosts 0 [0], .setHosts 1 [0], .result 0 0 .failure, .result 1 0 .success, .result 0 0 .failure, .result 0 0 .failure]
+    (w.words 0).active = false ∧ (w.chk 0 0).map (·.un) = some 3 ∧ (w.thr 0).1 = 1 := by
+  decide
+
+-- non-vacuity: a host shared by two clusters (thresholds u = 2, h = 2), driven unhealthy by cluster 0's checker, cluster 1
+-- drops it (nothing changes), removed and re-added in cluster 0 (new checker, counters restart, flag kept), healed by two
+-- consecutive successes of the new checker
+example :
+    (trace (World.init (fun _ => (2, 2)) (fun _ => ⟨false, false⟩))
+      [.setHosts 0 [0], .setHosts 1 [0], .result 0 0 .failure, .result 1 0 .failure, .result 0 0 .failure,
+       .setHosts 1 [], .setHosts 0 [], .setHosts 0 [0], .result 0 0 .success, .result 0 0 .failure,
+       .result 0 0 .success, .result 0 0 .success]).map (fun o => ((o.words 0).toNat, o.cb)) =
+    [(0, none), (0, none), (0, some ⟨false, false, false⟩), (0, some ⟨false, false, false⟩), (1, some ⟨true, false, true⟩),
+     (1, none), (1, none), (1, none), (1, some ⟨false, true, true⟩), (1, some ⟨false, false, true⟩),
+     (1, some ⟨false, true, true⟩), (0, some ⟨true, true, false⟩)] := by decide
+example : soleOwner [HealthLifecycle.Op.setHosts 0 [0, 1], .setHosts 1 [0], .result 0 1 .failure] 0 1 = true ∧
+    ((runOps (World.init (fun _ => (1, 1)) (fun _ => ⟨false, false⟩)) [.setHosts 0 [0, 1], .setHosts 1 [0]]).chk 0 1).isSome = true := by
+  decide
+example : (HealthLifecycle.Op.setHosts 0 [1]).isLifecycle = true := rfl
+
+end Lifecycle
 
 end MosnVerif.Props.C16
